@@ -2,6 +2,7 @@
 records what the body received and the reply; plus the spec-sanity classification of every (type, value) pair.
 usage: validation.py SCENARIOS.json TRACES.json"""
 import enum
+import inspect
 import json
 import logging
 import sys
@@ -11,7 +12,7 @@ import jsonschema
 import pydantic
 
 import pjrpc
-from pjrpc.server import Dispatcher
+from pjrpc.server import Dispatcher, ViewMixin
 from pjrpc.server.validators import jsonschema as vjs
 from pjrpc.server.validators import pydantic as vpd
 
@@ -21,7 +22,10 @@ VALUES = {'i5': 5, 'i0': 0, 'im1': -1, 's_abc': 'abc', 's_5': '5', 's_x': 'x', '
           'a_12': [1, 2], 'a_a': ['a'], 'o_k1': {'k': 1}, 'f1_5': 1.5, 'o_x1': {'x': 1}, 'a_ox1': [{'x': 1}]}
 FRAG = {'int': {'type': 'integer'}, 'intmin0': {'type': 'integer', 'minimum': 0}, 'intmax0': {'type': 'integer', 'maximum': 0},
         'strenum': {'type': 'string', 'enum': ['abc', '5']}, 'bool': {'type': 'boolean'},
-        'intlist': {'type': 'array', 'items': {'type': 'integer'}}}
+        'intlist': {'type': 'array', 'items': {'type': 'integer'}},
+        'd4exmin0': {'type': 'integer', 'minimum': 0, 'exclusiveMinimum': True}}      # draft-04 syntax
+DRAFT4 = 'http://json-schema.org/draft-04/schema#'
+OLD_DIALECT = {'d4exmin0': DRAFT4}
 class XModel(pydantic.BaseModel):
     x: int
 
@@ -95,7 +99,10 @@ def sanity(s):
         val = VALUES[v]
         if s['validator'] == 'schema':
             try:
-                jsonschema.validate(val, FRAG[p['type']])
+                frag = dict(FRAG[p['type']])
+                if p['type'] in OLD_DIALECT:
+                    frag['$schema'] = OLD_DIALECT[p['type']]
+                jsonschema.validate(val, frag)
                 cls.append('yes')
             except jsonschema.ValidationError:
                 cls.append('no')
@@ -132,7 +139,9 @@ def run(scn):
     ev = [{'ev': 'Sanity', 'cls': sanity(s)}]
     names = ['p%d' % (j + 1) for j in range(len(s['params']))]
     is_schema = s['validator'] == 'schema'
-    excl = (lambda name, ann, default: name == 'dep') if s['extra'] == 'dep' else None
+    excl = {'dep': lambda name, ann, default: name == 'dep',
+            'dep_ann': lambda name, ann, default: ann is inspect.Parameter.empty}.get(s['extra'])
+    is_view = s.get('flavour') == 'view' 
     if s['vsrc'] != 'fresh':
         val = shared(s['validator'])
     elif is_schema:
@@ -140,18 +149,23 @@ def run(scn):
     else:
         val = vpd.PydanticValidator(coerce=s['validator'] == 'pyd_coerce', exclude_param=excl)
     parts = []
-    if s['extra'] == 'ctx':
+    if is_view:
+        parts.append('self')
+    elif s['extra'] == 'ctx':
         parts.append('ctx')
     for n, p in zip(names, s['params']):
         ann = '' if is_schema else ': ' + ANN_SRC[p['type']]
         parts.append('%s%s%s' % (n, ann, (' = DEFAULT' if p['dflt'] else '')))
     if s['extra'] == 'dep':
         parts.append('dep' + ('' if is_schema else ': str') + ' = DEFAULT')
+    if s['extra'] == 'dep_ann':
+        parts.append('dep = DEFAULT')
 
     def log(loc):
         e = {'ev': 'Exec', 'p1': a_val(loc['p1']) if 'p1' in loc else 'na', 'p2': a_val(loc['p2']) if 'p2' in loc else 'na',
              'p3': a_val(loc['p3']) if 'p3' in loc else 'na',
-             'extra': a_val(loc['ctx']) if 'ctx' in loc else (a_val(loc['dep']) if 'dep' in loc else 'na')}
+             'extra': a_val(loc['ctx']) if 'ctx' in loc else (a_val(loc['dep']) if 'dep' in loc else
+                                                              (a_val(loc['self'].ctx) if is_view and s['extra'] == 'ctx' else 'na'))}
         ev.append(e)
         return 'RET'
     ns = {'DEFAULT': DEFAULT, '_log': log, 'Optional': Optional, 'List': List, 'Dict': Dict, 'XModel': XModel, 'Choice': Choice}
@@ -160,11 +174,24 @@ def run(scn):
     if is_schema:
         schema = {'type': 'object', 'properties': {n: FRAG[p['type']] for n, p in zip(names, s['params'])},
                   'required': [n for n, p in zip(names, s['params']) if not p['dflt'] or s.get('sreq')], 'additionalProperties': False}
+        for p in s['params']:
+            if p['type'] in OLD_DIALECT:
+                schema['$schema'] = OLD_DIALECT[p['type']]
+                if not schema['required']:
+                    del schema['required']          # draft-04 does not allow an empty `required` array
         m = val.validate(m) if s['vsrc'] == 'shared_default' else val.validate(m, schema=schema)
     else:
         m = val.validate(m)
     d = Dispatcher()
-    d.add(m, 'm', context='ctx' if s['extra'] == 'ctx' else None)
+    if is_view:
+        class View(ViewMixin):
+            def __init__(self, ctx=None):
+                super().__init__()
+                self.ctx = ctx
+        View.m = m
+        d.registry.view(View, context='ctx' if s['extra'] == 'ctx' else None)
+    else:
+        d.add(m, 'm', context='ctx' if s['extra'] == 'ctx' else None)
     provided = [(n, VALUES[v]) for n, v in zip(names, s['vals']) if v != 'omit']
     if s['passing'] == 'pos':
         params = [v for _, v in provided]
